@@ -27,19 +27,32 @@ git stash -q
 WITHOUT=$(run_demo)
 git stash pop -q
 cd /verif
+if [ -n "${SEED_COPY:-}" ]; then
+  # run against a patched copy of /repo's HEAD so that /repo itself stays untouched (several seeds can be evaluated at once)
+  RC_DIR=/tmp/repo-$NAME; rm -rf $RC_DIR; mkdir -p $RC_DIR /tmp/ev-$NAME
+  git -C /repo archive HEAD | tar -x -C $RC_DIR
+  (cd $RC_DIR && patch -p1 -s < $OUT/patch.diff) || { echo "patch does not apply to the copy"; exit 1; }
+  START=$(date +%s)
+  VERIF_REPO=$RC_DIR VERIF_EVIDENCE_DIR=/tmp/ev-$NAME ./check $ID ${CHECK_ARGS:-} > $OUT/check.log 2>&1; RC=$?
+  END=$(date +%s)
+  rm -rf $RC_DIR /tmp/ev-$NAME
+  WHERE="a copy of /repo HEAD (VERIF_REPO) with patch.diff applied, removed afterwards"
+else
 git -C /repo apply $OUT/patch.diff || { echo "patch does not apply to /repo"; exit 1; }
 cp evidence/$ID.json /tmp/evidence-$ID.bak 2>/dev/null
 START=$(date +%s)
-./check $ID > $OUT/check.log 2>&1; RC=$?
+./check $ID ${CHECK_ARGS:-} > $OUT/check.log 2>&1; RC=$?
 END=$(date +%s)
 git -C /repo checkout -- .
 cp /tmp/evidence-$ID.bak evidence/$ID.json 2>/dev/null   # evidence must describe the unchanged tree
+  WHERE="patch.diff applied to /repo, undone afterwards"
+fi
 VIOL=$(grep -c "^VIOLATION" $OUT/check.log)
 CMD="$CMD" python3 - <<PY
 import json
 import os
 json.dump({"property":"$ID","seed":"$NAME","tests_with_change":"$T","demo_exit_with_change":$WITH,"demo_exit_without_change":$WITHOUT,
- "demo_cmd":os.environ.get("CMD",""),"check_cmd":"./check $ID (quick tier) with patch.diff applied to /repo, undone afterwards","check_exit":$RC,
+ "demo_cmd":os.environ.get("CMD",""),"check_cmd":"./check $ID ${CHECK_ARGS:-} (quick tier) on $WHERE","check_exit":$RC,
  "violation_lines":$VIOL,"check_seconds":$((END-START)),"needs_to_manifest":"see NOTES.md"}, open("$OUT/meta.json","w"), indent=1)
 PY
 echo "$NAME: tests[$T] demo with=$WITH without=$WITHOUT check rc=$RC violations=$VIOL ($((END-START)) s)"
